@@ -61,10 +61,10 @@ theorem rowDense_rowSum (n : Nat) (l : List (Nat × K)) (hnd : (l.map (·.1)).No
 /-- **the matrix of the C01 theorems, entry by entry, is what the consumers of the sparse rows see** -/
 theorem A_entry_rowSum (p : Problem K) (hrows : RowsOK p) (i : Fin p.m) (j : Fin p.n) :
     p.A i j = Lin.rowSum (p.rows.getD i.val #[]).toList (j.val + 1) := by
-  obtain ⟨hnd, hr⟩ := hrows i.val i.isLt
+  have hr := hrows i.val i.isLt
   show mget p.dense i.val j.val = _
   rw [mget_dense]
-  exact rowDense_rowSum p.n _ hnd hr j.val j.isLt
+  exact rowDense_rowSum' p.n _ hr j.val j.isLt
 
 end
 
